@@ -760,7 +760,10 @@ def env_add_pools(self, agent, old):
     C = agent.components
     return (all(pool_ext(P, P0, T, C[T]) for T in C)
             and all(T in C or pool_same(P, P0, T) for T in P0)
-            and all(T in C or T in P0 for T in P))
+            and all(T in C or T in P0 for T in P)
+            and all((T in C and i == len(P[T]) - 1 and P[T][i] is C[T])
+                    or (T in P0 and i < len(P0[T]) and P[T][i] is P0[T][i])
+                    for T in P for i in range(len(P[T]))))
 
 
 def env_add_dup(self, agent, old):
